@@ -153,6 +153,7 @@ int32_t tls13NewTicket(ssl_t *ssl,
     unsigned char pskId[32], iv[12];
     psDynBuf_t buf;
     psSessionTicketKeys_t *key;
+    psSessionTicketKeys_t keyCopy;
     psAesGcm_t ctx;
     unsigned char *state, *tag, *out;
     psSizeL_t stateLen, outLen;
@@ -217,18 +218,29 @@ int32_t tls13NewTicket(ssl_t *ssl,
       containing the PSK and the session parameters.
     */
 
+    /* The key list is shared with other sessions and may be changed by key
+       rotation: take a private copy of the first key under the ticket lock. */
+    matrixSslSessTicketLock();
     key = ssl->keys->sessTickets;
-    if (key == NULL)
+    if (key != NULL)
+    {
+        Memcpy(&keyCopy, key, sizeof(keyCopy));
+    }
+    rc = (key != NULL);
+    matrixSslSessTicketUnlock();
+    if (!rc)
     {
         psTraceErrr("Error: no session ticket keys loaded\n");
         tls13FreePsk(psk, ssl->hsPool);
         return PS_FAILURE;
     }
+    keyCopy.next = NULL;
 
     psDynBufInit(ssl->hsPool, &buf, 512);
-    psDynBufAppendOctets(&buf, key->name, 16);
+    psDynBufAppendOctets(&buf, keyCopy.name, 16);
 
-    psAesInitGCM(&ctx, key->symkey, key->symkeyLen);
+    psAesInitGCM(&ctx, keyCopy.symkey, keyCopy.symkeyLen);
+    memzero_s(&keyCopy, sizeof(keyCopy));
     rc = psAesReadyGCMRandomIV(&ctx, iv, NULL, 0, NULL);
     if (rc < 0)
     {
@@ -253,7 +265,6 @@ int32_t tls13NewTicket(ssl_t *ssl,
 # ifdef DEBUG_TLS_1_3_RESUMPTION
     psTraceBytes("pt", state, stateLen);
     psTraceBytes("IV", iv, 12);
-    psTraceBytes("key", key->symkey, key->symkeyLen);
 # endif
 
     psAesEncryptGCM(&ctx,
